@@ -15,7 +15,8 @@ pub fn op_usecheck(job: &Value) -> Value {
     use chialisp::compiler::comptypes::CompilerOpts;
     use std::rc::Rc;
     let text = job["text"].as_str().unwrap();
-    let opts: Rc<dyn CompilerOpts> = Rc::new(DefaultCompilerOpts::new("*verif*"));
+    let search: Vec<String> = job.get("search").and_then(|s| s.as_array()).map(|a| a.iter().map(|x| x.as_str().unwrap().to_string()).collect()).unwrap_or_default();
+    let opts: Rc<dyn CompilerOpts> = Rc::new(DefaultCompilerOpts::new("*verif*")).set_search_paths(&search);
     match check_unused(opts, text) {
         Ok((_ok, out)) => {
             let names: Vec<String> = out.lines().filter_map(|l| l.strip_prefix(" - ")).map(|s| s.trim().to_string()).collect();
